@@ -74,6 +74,49 @@ def readback(m, name):
         return -777777
 
 
+def named_and_raw_events(spec):
+    """(a) the module carries a user-given name with braces / percent signs (text that message templates stumble over): a
+    refusal is still the controller-value error, a lenient assignment still keeps the value; (b) lenient set_raw - the load
+    path - of a stored number that denotes a value beyond the range keeps exactly the denoted value."""
+    from rv.errors import override_raise_controller_value_errors
+    cl = classes()
+    events = []
+    for t, st in sorted(spec.items()):
+        cls = cl.get(t)
+        if cls is None or t == "Output":
+            continue
+        names = list(cls.controllers)
+        for i, c in enumerate(st["ctls"], 1):
+            if c["kind"] not in ("range", "compact", "nooffset") or (t == "SpectraVoice" and c["name"].startswith("h")):
+                continue
+            for k, v in enumerate((c["max"] + 1, c["min"] - 1)):
+                for strict in (True, False):
+                    try:
+                        m = cls()
+                        m.name = ["{lead} LFO", "{}", "amp }", "100% {0}"][(i + k) % 4]
+                        old = readback(m, names[i - 1])
+                    except Exception:
+                        continue
+                    with override_raise_controller_value_errors(strict):
+                        out, _ = outcome_of(lambda: setattr(m, names[i - 1], v))
+                    events.append({"op": "set", "t": t, "i": i, "u": 0, "strict": strict, "how": "attr-named-module",
+                                   "arg": {"k": "int", "v": v, "n": ""}, "old": old, "outcome": "exception" if out.startswith("exception:") else out,
+                                   "has": True, "got": readback(m, names[i - 1])})
+                # (b)
+                try:
+                    m = cls()
+                    old = readback(m, names[i - 1])
+                    raw = v - c["min"] if (c["min"] < 0 and c["kind"] != "nooffset") else v
+                    with override_raise_controller_value_errors(False):
+                        out, _ = outcome_of(lambda: m.set_raw(names[i - 1], raw))
+                    events.append({"op": "set", "t": t, "i": i, "u": 0, "strict": False, "how": "set_raw-lenient",
+                                   "arg": {"k": "int", "v": v, "n": ""}, "old": old, "outcome": "exception" if out.startswith("exception:") else out,
+                                   "has": True, "got": readback(m, names[i - 1])})
+                except Exception:
+                    pass
+    return events
+
+
 def attached_repeat_events(spec):
     """A module that is attached to a project and already HOLDS a value beyond its range (a lenient load leaves such values):
     assigning that very value again in strict mode is refused like any other out-of-range assignment."""
